@@ -24,6 +24,7 @@ type helperSpec struct {
 	Cwd, Chroot, Exe string
 	Fds          []string
 	Kill         bool
+	Gone         bool // the working directory is deleted (and made anew) once the helper sits in it
 }
 
 func init() {
@@ -114,6 +115,7 @@ func runInuseScan(c Case) interface{} {
 		hm := hj.(map[string]interface{})
 		h := helperSpec{Cwd: virt(unhx(hm["cwd"])), Chroot: virt(unhx(hm["chroot"])), Exe: virt(unhx(hm["exe"]))}
 		h.Kill, _ = hm["kill"].(bool)
+		h.Gone, _ = hm["gone"].(bool)
 		for _, f := range unhxs(hm["fds"]) {
 			h.Fds = append(h.Fds, virt(f))
 		}
@@ -153,6 +155,10 @@ func runInuseScan(c Case) interface{} {
 		line, _ := bufio.NewReader(stdout).ReadString('\n')
 		if strings.TrimSpace(line) != "ready" {
 			return obj("harness-error", "helper: "+line)
+		}
+		if h.Gone && h.Cwd != "" && h.Chroot == "" {
+			os.RemoveAll(h.Cwd)
+			os.MkdirAll(h.Cwd, 0755)
 		}
 	}
 	old := fs.VerifHook
@@ -254,6 +260,13 @@ func genC19(g *Gen, tier string, emit func(Case)) {
 			h["fds"] = hxs(fds)
 			if g.Chance(15, 100) {
 				h["kill"] = true
+			}
+			if g.Chance(10, 100) {
+				// sits in a directory of its own that is then deleted and made anew: it does
+				// not use the directory now found under that name
+				h["cwd"] = hx(place() + fmt.Sprintf("/gone%d", j))
+				h["chroot"] = hx("")
+				h["gone"] = true
 			}
 			hs = append(hs, h)
 		}
